@@ -476,6 +476,24 @@ def system_family(ctx, catname="MCCat", quick_idx="QuickIdx", relabel=None, extr
                     {"act": "newbuf", "b": "b1", "pre": pre, "spare": spare, "i": 0, "k": 0, "conv": ""},
                     {"act": "marshal", "b": "b1", "pre": [], "spare": 0, "i": i, "k": 2, "conv": "ptr"},
                     {"act": "marshal", "b": "b1", "pre": [], "spare": 0, "i": 1 + (i % nfixed), "k": 2, "conv": "val"}]})
+    # the buffer-reuse pattern, for every hand-picked item and every triple of its values: decode k1 from b1, overwrite b1 in place with
+    # the encoding of k2 (marshal into b1[:0]), decode a third value from another buffer, decode b1 again - whatever the library kept from the
+    # first decode (an interning table key, a scratch buffer, a view of the input) now sees other bytes
+    import itertools, random as _random
+    prnd = _random.Random(ctx.seed + 17)
+    npat = 0
+    for i in range(1, nfixed + 1):
+        ks = list(range(1, len(cat[i - 1]["vals"]) + 1))
+        triples = list(itertools.product(ks, ks, ks))
+        if len(triples) > (64 if ctx.quick else 400):
+            triples = prnd.sample(triples, 64 if ctx.quick else 400)
+        for (k1, k2, k3) in triples:
+            st0 = lambda act, b, k=0, conv="": {"act": act, "b": b, "pre": [], "spare": 0, "i": i, "k": k, "conv": conv}
+            sim.append({"ev": "hist", "steps": [st0("marshal", "b1", k1, "ptr"), st0("unmarshal", "b1"), st0("reuse", "b1", k2, "ptr"),
+                                                 st0("marshal", "b2", k3, "val"), st0("unmarshal", "b2"), st0("unmarshal", "b1"), st0("fresh", ""),
+                                                 st0("unmarshal", "b1")]})
+            npat += 1
+    log("buffer-reuse pattern histories: %d" % npat)
     allc = cases + sim
     for c in allc:
         c["cfg"] = fam_codec.CFGS["default"]
